@@ -27,7 +27,7 @@ PROP = 'C05'
 
 
 # ---------------------------------------------------------------------------- relational lemmas on the specs (z3, two symbolic marks)
-def lemma(name, build, kind='relational'):
+def lemma(name, build, kind='relational', meta=None):
     """build(k1, k2) -> (hypothesis, goal) over SInt marks k1 < k2 ; returns a result dict"""
     c = Ctx()
     Ctx.current = c
@@ -42,6 +42,7 @@ def lemma(name, build, kind='relational'):
         r.pop('_z3model', None)
         r.pop('_solver', None)
         r['smt2'] = smt2_of(ob) if r['verdict'] == 'proved' else None
+        r['meta'] = meta
         return r
     finally:
         Ctx.current = None
@@ -58,12 +59,15 @@ def lemmas_tyrving(args):
         if kind == 'race':
             for manual in (False, True):
                 out.append(lemma('tyrving/%s/%s/age=%d/%s: faster never fewer points' % (g, ev, age, 'manual' if manual else 'auto'),
-                                 lambda k1, k2: (dom(k1, k2), J.tyrving_points(kind, pargs, age, k1, manual) >= J.tyrving_points(kind, pargs, age, k2, manual))))
+                                 lambda k1, k2: (dom(k1, k2), J.tyrving_points(kind, pargs, age, k1, manual) >= J.tyrving_points(kind, pargs, age, k2, manual)),
+                                 meta=dict(sys='tyrving', g=g, ev=ev, age=age, manual=manual, rel='ge')))
             out.append(lemma('tyrving/%s/%s/age=%d: hand-timed never more than electronic for the same figure' % (g, ev, age),
-                             lambda k1, k2: (And(k1 >= 0, k1 <= kmax), J.tyrving_points(kind, pargs, age, k1, True) <= J.tyrving_points(kind, pargs, age, k1, False))))
+                             lambda k1, k2: (And(k1 >= 0, k1 <= kmax), J.tyrving_points(kind, pargs, age, k1, True) <= J.tyrving_points(kind, pargs, age, k1, False)),
+                             meta=dict(sys='tyrving', g=g, ev=ev, age=age, rel='manual')))
         else:
             out.append(lemma('tyrving/%s/%s/age=%d: longer never fewer points' % (g, ev, age),
-                             lambda k1, k2: (dom(k1, k2), J.tyrving_points(kind, pargs, age, k1) <= J.tyrving_points(kind, pargs, age, k2))))
+                             lambda k1, k2: (dom(k1, k2), J.tyrving_points(kind, pargs, age, k1) <= J.tyrving_points(kind, pargs, age, k2)),
+                             meta=dict(sys='tyrving', g=g, ev=ev, age=age, manual=False, rel='le')))
         out.append(lemma('tyrving/%s/%s/age=%d: never negative' % (g, ev, age),
                          lambda k1, k2: (And(k1 >= 0, k1 <= kmax), J.tyrving_points(kind, pargs, age, k1) >= 0), 'bounds'))
     return out
@@ -79,7 +83,8 @@ def lemmas_qkids(args):
     dom = lambda k1, k2: And(k1 >= 0, k1 < k2, k2 <= kmax)
     s = lambda k: J.qkids_points(row, timed, k)
     return [lemma('qkids/%s/%s: better never fewer points' % (ct, ev),
-                  lambda k1, k2: (dom(k1, k2), (s(k1) >= s(k2)) if timed else (s(k1) <= s(k2)))),
+                  lambda k1, k2: (dom(k1, k2), (s(k1) >= s(k2)) if timed else (s(k1) <= s(k2))),
+                  meta=dict(sys='qkids', ct=ct, ev=ev, rel='ge' if timed else 'le')),
             lemma('qkids/%s/%s: within 10..100' % (ct, ev), lambda k1, k2: (And(k1 >= 0, k1 <= kmax), And(s(k1) >= 10, s(k1) <= 100)), 'bounds')]
 
 
@@ -93,7 +98,8 @@ def lemmas_sportshall(args):
     s = lambda k: C11.sh_spec(info, high, k, 100)
     dom = lambda k1, k2: And(k1 >= 0, k1 < k2, k2 <= kmax)
     return [lemma('sportshall/%s: better never fewer points' % ev,
-                  lambda k1, k2: (dom(k1, k2), (s(k1) <= s(k2)) if high else (s(k1) >= s(k2)))),
+                  lambda k1, k2: (dom(k1, k2), (s(k1) <= s(k2)) if high else (s(k1) >= s(k2))),
+                  meta=dict(sys='sportshall', ev=ev, rel='le' if high else 'ge')),
             lemma('sportshall/%s: never negative' % ev, lambda k1, k2: (And(k1 >= 0, k1 <= kmax), s(k1) >= 0), 'bounds')]
 
 
@@ -197,6 +203,39 @@ def bulgarian_ground(run):
     return tot
 
 
+def conc_lemma(r):
+    """replay a refuted spec lemma on the real public function with the model's two marks"""
+    m = r.get('meta') or {}
+    mod = r.get('model') or {}
+    k1, k2 = int(mod.get('k1', 0)), int(mod.get('k2', 0))
+    rep = dict(call='spec lemma ' + r['name'], model=mod, input=['lemma', m, k1, k2], solver='z3 sat')
+    try:
+        if m.get('sys') == 'tyrving':
+            f = real_module('athlib.tyrving_score').tyrving_score
+            def sc(k, manual):
+                txt = ('%d.%d' % (k // 100, (k % 100) // 10)) if manual else '%d.%02d' % (k // 100, k % 100)
+                return f(m['g'], m['age'], m['ev'], txt)
+            if m['rel'] == 'manual':
+                k1 -= k1 % 10
+                a, b = sc(k1, True), sc(k1, False)
+                rep.update(call='tyrving_score(%r,%r,%r, hand-timed vs electronic %.2f)' % (m['g'], m['age'], m['ev'], k1 / 100), observed=[a, b])
+                return rep, a > b
+            a, b = sc(k1, False), sc(k2, False)
+        elif m.get('sys') == 'qkids':
+            f = real_module('athlib.qkids_score').qkids_score
+            a, b = f(m['ct'], m['ev'], k1 / 100), f(m['ct'], m['ev'], k2 / 100)
+        elif m.get('sys') == 'sportshall':
+            f = real_module('athlib.sportshall_score').sportshall_score
+            a, b = f(m['ev'], '%d.%02d' % (k1 // 100, k1 % 100)), f(m['ev'], '%d.%02d' % (k2 // 100, k2 % 100))
+        else:
+            return rep, False
+        rep.update(call='%s: marks %.2f then %.2f' % (r['name'], k1 / 100, k2 / 100), observed=[a, b])
+        return rep, (a < b) if m['rel'] == 'ge' else (a > b)
+    except Exception as e:
+        rep['concretise_error'] = repr(e)
+        return rep, False
+
+
 def _work(job):
     k = job[0]
     if k == 'lem':
@@ -231,6 +270,11 @@ def replay(rep):
         g, io, ev = h.FACTORS[i][:3]
         p0, p1 = h.score(g, io, ev, (c - 1) / 100), h.score(g, io, ev, c / 100)
         bad = (p1 < p0) if up else (p1 > p0)
+    elif inp[0] == 'lemma':
+        r2, bad = conc_lemma(dict(name=rep['obligation'], meta=inp[1], model={'k1': inp[2], 'k2': inp[3]}))
+        print('replay %s -> %r' % (r2.get('call'), r2.get('observed')))
+        print('VIOLATION reproduced' if bad else 'not reproduced on this tree')
+        return 1 if bad else 0
     else:
         return C11.replay(rep)
     print('replay %s: %r -> %r then %r' % (rep['obligation'], inp, p0, p1))
@@ -293,8 +337,8 @@ def main(tier, seed):
                     run.sample(dict(obligation=r['name'], verdict='unsat', smt2=r['smt2']))
                     sampled = True
                 if r['verdict'] == 'refuted':
-                    run.violation(r['name'], dict(call='spec lemma ' + r['name'], model=r.get('model'), input=['lemma', r['name']],
-                                                  solver='z3 sat'), False)
+                    rep, bad = conc_lemma(r)
+                    run.violation(r['name'], rep, bad)
         elif kind == 'adjA':
             n, bad = res[2]
             nA += n
